@@ -113,6 +113,8 @@ class RunCtx(object):
         self.extractors[cls] = fn
         if raises:
             self.extractor_raises.add(cls)
+        else:
+            self.extractor_raises.discard(cls)
         self.eliot.register_exception_extractor(cls, fn)
 
     def setup_extractors(self, specs):
